@@ -367,6 +367,21 @@ for e in ('rr_is_starts_ends', 'rr_includes', 'rr_permutation'):
     ob(name='ranges.values_range.%s' % e[3:], kind='BL', props=['C11'], unit='ranges3', harness='h_ranges3.c', entry=e, unwind=7,
        bound='range = C array of length 3; list of element values given as a range (C array seen through mini_span) of every length 0..4 (std::vector model capacity 4); all int values')
 
+# unit ranges4: the range matchers over a std::vector<int> of symbolic length 0..4 (the vector is the fixed-capacity model)
+_VEC = "St17reference_wrapperISt6vectorIiSaIiEEE"
+UNITS['ranges4'] = {
+    'opaque': [r'6vp_absILi\dEE7matchesERKi'], 'dyn_types': [], 'erase_functions': True, 'vector_cap': 4,
+    'roots': {
+        "RV_IS": _PM + "19is_elements_checkerE.*JiiiEEEJiiiEEE" + _VEC, "RV_STARTS": _PM + "28starts_with_elements_checkerE.*JiiEEEJiiEEE" + _VEC,
+        "RV_ENDS": _PM + "17ends_with_checkerE.*JiiEEEJiiEEE" + _VEC, "RV_INC": _PM + "25includes_elements_checkerE.*JiiEEEJiiEEE" + _VEC,
+        "RV_PERM": _PM + "31is_permutation_elements_checkerE.*JiiiEEEJiiiEEE" + _VEC,
+        "RV_ALL": _PM + "20range_all_of_checkerE.*" + _VEC, "RV_ANY": _PM + "20range_any_of_checkerE.*" + _VEC, "RV_NONE": _PM + "21range_none_of_checkerE.*" + _VEC,
+    },
+}
+for e in ('rv_is_starts_ends', 'rv_includes_permutation', 'rv_all_any_none'):
+    ob(name='ranges.vector.%s' % e[3:], kind='BL', props=['C11'], unit='ranges4', harness='h_ranges4.c', entry=e, unwind=9,
+       bound='range = std::vector<int> of every length 0..4 (trusted fixed-capacity model), all element values free; element lists of length 2-3 (plain values) or one abstract matcher')
+
 # ----------------------------------------------------------------------------------------------
 # unit find_is: UNBOUNDED induction (init / step / exit as DFCC contracts) for find()'s selection rule (C02)
 UNITS['find_is'] = {
